@@ -3,16 +3,15 @@
 package rig
 
 import (
-	"sync"
 	"context"
 	"errors"
 	"fmt"
 	"io"
 	"os"
 	"path/filepath"
+	"sync"
 
 	golog "github.com/fclairamb/go-log"
-	"github.com/spf13/afero"
 	"github.com/pojntfx/stfs/pkg/cache"
 	"github.com/pojntfx/stfs/pkg/config"
 	"github.com/pojntfx/stfs/pkg/fs"
@@ -21,6 +20,7 @@ import (
 	"github.com/pojntfx/stfs/pkg/persisters"
 	"github.com/pojntfx/stfs/pkg/tape"
 	"github.com/pojntfx/stfs/pkg/zzverif/vsync"
+	"github.com/spf13/afero"
 )
 
 type Config struct {
@@ -31,8 +31,8 @@ type Config struct {
 	RecordSize  int    `json:"rs"`
 	WriteCache  string `json:"wc,omitempty"` // memory (default) | file
 	ReadOnly    bool   `json:"ro,omitempty"`
-	NoWriteOps  bool   `json:"nowrite,omitempty"` // like `serve http`: writeOps=nil, getFileBuffer=nil
-	KeySet      int    `json:"keyset,omitempty"`  // which key set to use for reading (1 = the wrong one)
+	NoWriteOps  bool   `json:"nowrite,omitempty"`   // like `serve http`: writeOps=nil, getFileBuffer=nil
+	KeySet      int    `json:"keyset,omitempty"`    // which key set to use for reading (1 = the wrong one)
 	Overwrite   bool   `json:"overwrite,omitempty"` // TapeManager constructed with overwrite=true (explicit overwrite on first use)
 }
 
@@ -71,12 +71,12 @@ func (c Config) Normalised() Config {
 
 type nopLogger struct{}
 
-func (nopLogger) Trace(string, ...interface{})      {}
-func (nopLogger) Debug(string, ...interface{})      {}
-func (nopLogger) Info(string, ...interface{})       {}
-func (nopLogger) Warn(string, ...interface{})       {}
-func (nopLogger) Error(string, ...interface{})      {}
-func (nopLogger) Panic(string, ...interface{})      {}
+func (nopLogger) Trace(string, ...interface{})       {}
+func (nopLogger) Debug(string, ...interface{})       {}
+func (nopLogger) Info(string, ...interface{})        {}
+func (nopLogger) Warn(string, ...interface{})        {}
+func (nopLogger) Error(string, ...interface{})       {}
+func (nopLogger) Panic(string, ...interface{})       {}
 func (l nopLogger) With(...interface{}) golog.Logger { return l }
 
 // ErrInjected is the opaque error the fault seams return.
@@ -121,14 +121,14 @@ type Stack struct {
 	Root     string
 
 	// seam accounting
-	Counts   map[string]int
-	Armed    *Fault
-	Fired    bool
-	WriteLog []WriteRec
-	ReadSteps int
-	ReadBudget int // 0 = unlimited
+	Counts         map[string]int
+	Armed          *Fault
+	Fired          bool
+	WriteLog       []WriteRec
+	ReadSteps      int
+	ReadBudget     int // 0 = unlimited
 	BudgetExceeded bool
-	OpenCaches int
+	OpenCaches     int
 
 	Handles map[int]*Handle
 	mu      sync.Mutex
